@@ -109,11 +109,11 @@ def run(ctx, F, cg):
                         continue
                     if not (argl & prefix_locals) and not formatted:
                         continue
-                    t = b.blocks[c.target]["t"]
-                    if t[0] == "switch" and t[1][0] != "k" and t[1][1][0] == c.dest[0]:
+                    sb_, t = b.switch_on(c.dest[0], c.target)
+                    if t is not None:
                         false_t = [tgt for v, tgt in t[2] if v == "0"]
                         if false_t:
-                            tests.append((c, c.target, false_t[0], t[3]))
+                            tests.append((c, sb_, false_t[0], t[3]))
             if not consumers:
                 ctx.violation("R17a", inst + "|no-consumer", where(r, it.line), "cannot find the record uses of this scan loop (checker needs update)")
                 continue
